@@ -33,6 +33,14 @@ type DynRoot struct {
 	X URoot `@@`
 }
 
+// CapList is a field type implemented by user code (participle.Capture): it appends the values it is given.
+type CapList struct{ V []string }
+
+func (c *CapList) Capture(values []string) error {
+	c.V = append(c.V, values...)
+	return nil
+}
+
 // PWord is a grammar node implemented by user code (participle.Parseable): it takes exactly one token with Next().
 type PWord struct {
 	W string
@@ -115,6 +123,8 @@ func buildWith(g *gGrammar, k int, extra ...participle.Option) (b *built, err er
 				t = reflect.TypeOf("")
 			case "strings":
 				t = reflect.TypeOf([]string{})
+			case "capt":
+				t = reflect.TypeOf(CapList{})
 			case "bool":
 				t = reflect.TypeOf(true)
 			case "int8", "int16", "int32", "int64", "int", "uint8", "uint16", "uint32", "uint64", "uint", "float32", "float64":
@@ -260,6 +270,10 @@ func canon(names map[reflect.Type]string, v reflect.Value, toks map[lexer.Positi
 			} else {
 				fmt.Fprintf(sb, "pos%d", toks[p])
 			}
+			return
+		}
+		if v.Type() == reflect.TypeOf(CapList{}) {
+			canon(names, v.Field(0), toks, sb) // printed like the []string it accumulates
 			return
 		}
 		if v.Type() == reflect.TypeOf(PWord{}) {
@@ -609,7 +623,19 @@ func buildRun(args []string) error {
 		w.Flush()
 		one := func() string {
 			return runGuarded(func() string {
-				_, err := build(g, g.Ks[0])
+				var err error
+				if st, ok := staticLR[g.ID]; ok {
+					func() {
+						defer func() {
+							if r := recover(); r != nil {
+								err = fmt.Errorf("PANIC %v", r)
+							}
+						}()
+						err = st()
+					}()
+				} else {
+					_, err = build(g, g.Ks[0])
+				}
 				if err != nil {
 					msg := strings.ReplaceAll(err.Error(), "\n", " ")
 					if strings.HasPrefix(msg, "PANIC") {
@@ -837,6 +863,63 @@ func lookaheadBig(args []string) error {
 			return fmt.Sprintf("ok A=%d B=%d", len(v.A), len(v.B))
 		})
 		fmt.Printf("%d\t%s\n", k, res)
+	}
+	return nil
+}
+
+func init() { commands["leak-big"] = leakBig }
+
+type bigLeakAlt struct {
+	A []string `(  @Ident* ";"`
+	B []string ` | @Ident* "." )`
+}
+type bigLeakOpt struct {
+	A []string `( @Ident+ ";" )?`
+	B []string `@Ident* "."`
+}
+type bigLeakLook struct {
+	A []string `(?= @Ident* ";" )?`
+	B []string `@Ident* "."`
+}
+
+// leak-big: an abandoned attempt that had queued n captures (n around and beyond any plausible batch size) must leave
+// nothing behind; prints "grammar\tk\tn\tlen(A)\tlen(B)|err".
+func leakBig(args []string) error {
+	for _, n := range []int{3, 1023, 1024, 1025, 1500, 5000} {
+		in := strings.Repeat("x ", n) + "."
+		for _, k := range []int{-1, 2 * participle.MaxLookahead} {
+			run := func(name string, f func() (int, int, error)) {
+				res := runGuardedFor(120*time.Second, func() string {
+					a, b, err := f()
+					if err != nil {
+						return "err"
+					}
+					return fmt.Sprintf("%d\t%d", a, b)
+				})
+				fmt.Printf("%s\t%d\t%d\t%s\n", name, k, n, res)
+			}
+			run("alt", func() (int, int, error) {
+				v, err := participle.MustBuild[bigLeakAlt](participle.UseLookahead(k)).ParseString("", in)
+				if err != nil {
+					return 0, 0, err
+				}
+				return len(v.A), len(v.B), nil
+			})
+			run("opt", func() (int, int, error) {
+				v, err := participle.MustBuild[bigLeakOpt](participle.UseLookahead(k)).ParseString("", in)
+				if err != nil {
+					return 0, 0, err
+				}
+				return len(v.A), len(v.B), nil
+			})
+			run("look", func() (int, int, error) {
+				v, err := participle.MustBuild[bigLeakLook](participle.UseLookahead(k)).ParseString("", in)
+				if err != nil {
+					return 0, 0, err
+				}
+				return len(v.A), len(v.B), nil
+			})
+		}
 	}
 	return nil
 }
